@@ -1,0 +1,61 @@
+//go:build verif
+
+// Contracts for package match, checked by /verif/gvc (comment-only file,
+// compiled only under the build tag "verif").
+package match
+
+// notified[c]: how many times client c's Update callback has been invoked.
+// visitedB[b]: trie node b has been entered by update.
+//@ ghost notified gmap[any]int
+//@ ghost visitedB set[ref]
+//@ func iface Client.Update (n)
+//@   effect notified := upd(notified, recv, notified[recv] + 1)
+//@   note a subscriber's Update callback is assumed not to touch the match trie
+
+// One trie step: key k of a node is compatible with the head of the update path
+// (a glob on either side agrees with anything; an exhausted path reaches every child).
+//@ pred Compat1(k string, path []string) := len(path) == 0 || path[0] == "*" || k == "*" || k == path[0]
+//@ pred Tail(path []string) := sub(view(path), 1, len(path))
+// Every child of a node exists (no nil child is ever stored).
+//@ pred NodeWf(b *branch) := b != nil && (forall k string :: has(b.children, k) ==> b.children[k] != nil)
+//@   && (forall c any :: has(b.clients, c) ==> c != nil)
+
+// update: every client registered at this node is offered the update (once per
+// activation, and not at all if the shared `updated` set already has it);
+// recursion goes into exactly the children compatible with the path head, with
+// the tail of the path (nil once the path is exhausted: implicit recursion).
+//@ func (*branch).update
+//@   props C06 C08 C12
+//@   requires NodeWf(b)
+//@   requires [subtree-wf] forall x ref :: x != nil ==> (forall k string :: has(heapsel("branch.children", x), k) ==> heapsel("branch.children", x)[k] != nil)
+//@     && (forall c any :: has(heapsel("branch.clients", x), c) ==> c != nil)
+//@   requires [updated-is-not-a-trie-map] updated == nil || (forall x ref :: heapsel("branch.clients", x) != updated)
+//@   effect visitedB := union1(visitedB, b)
+//@   modifies ghost notified, ghost visitedB, mapof(updated)
+//@   invariant 0: [clients-once] (forall c any :: notified[c] >= old(notified[c]))
+//@     && (updated != nil ==> (forall c any :: old(has(updated, c)) ==> has(updated, c))
+//@         && (forall c any :: notified[c] - old(notified[c]) == ite(has(updated, c) && !old(has(updated, c)), 1, 0)))
+//@     && (forall c any :: $visited[c] ==> notified[c] >= old(notified[c]))
+//@     && (forall x ref :: visitedB[x] <==> (old(visitedB[x]) || x == b))
+//@     && (forall x ref :: dom(heapsel("branch.clients", x)) == old(dom(heapsel("branch.clients", x))))
+//@   invariant 1: [implicit-recursion-reaches-every-child] (forall k string :: $visited[k] ==> visitedB[b.children[k]])
+//@     && (forall x ref :: old(visitedB[x]) || x == b ==> visitedB[x])
+//@     && (forall x ref :: dom(heapsel("branch.clients", x)) == old(dom(heapsel("branch.clients", x))))
+//@     && (forall c any :: notified[c] >= old(notified[c]))
+//@     && (updated != nil ==> (forall c any :: old(has(updated, c)) ==> has(updated, c))
+//@         && (forall c any :: notified[c] - old(notified[c]) == ite(has(updated, c) && !old(has(updated, c)), 1, 0)))
+//@   invariant 2: [glob-path-reaches-every-child] (forall k string :: $visited[k] ==> visitedB[b.children[k]])
+//@     && (forall x ref :: old(visitedB[x]) || x == b ==> visitedB[x])
+//@     && (forall x ref :: dom(heapsel("branch.clients", x)) == old(dom(heapsel("branch.clients", x))))
+//@     && (forall c any :: notified[c] >= old(notified[c]))
+//@     && (updated != nil ==> (forall c any :: old(has(updated, c)) ==> has(updated, c))
+//@         && (forall c any :: notified[c] - old(notified[c]) == ite(has(updated, c) && !old(has(updated, c)), 1, 0)))
+//@   assert at call (*branch).update#0: [implicit-recursion-only-when-exhausted C06] len(path) == 0 && len(arg2) == 0
+//@   assert at call (*branch).update#1: [glob-head-residual C06] len(path) > 0 && path[0] == "*" && view(arg2) == Tail(path)
+//@   assert at call (*branch).update#2: [glob-child-residual C06] len(path) > 0 && arg0 == b.children["*"] && view(arg2) == Tail(path)
+//@   assert at call (*branch).update#3: [named-child-residual C06] len(path) > 0 && arg0 == b.children[path[0]] && view(arg2) == Tail(path)
+//@   ensures [nothing-missed C06] forall k string :: has(b.children, k) && Compat1(k, path) ==> visitedB[b.children[k]]
+//@   ensures [visited-grows] forall x ref :: old(visitedB[x]) || x == b ==> visitedB[x]
+//@   ensures [never-un-notified] forall c any :: notified[c] >= old(notified[c])
+//@   ensures [at-most-once-with-shared-set C06] updated != nil ==> (forall c any :: old(has(updated, c)) ==> has(updated, c))
+//@     && (forall c any :: notified[c] - old(notified[c]) == ite(has(updated, c) && !old(has(updated, c)), 1, 0))
